@@ -178,9 +178,10 @@ def check(ctx, replay=None):
             if e["op"] != "load":
                 continue
             attempt = any(x["op"] == "migrate" for x in e["hook"])
-            key = (h["priv"], e["nnp"], tuple(e["flags"]), attempt)
-            cases[key] = {"priv": h["priv"], "nnp": e["nnp"], "flags": e["flags"], "attempt": attempt, "spec_res": e["res"], "spec_same_thread": e["kt"] == e["caller"]}
-    if len(cases) < 48:
+            attempt_asm = any(x["op"] == "migrate_asm" for x in e["hook"])
+            key = (h["priv"], e["nnp"], tuple(e["flags"]), attempt, attempt_asm)
+            cases[key] = {"priv": h["priv"], "nnp": e["nnp"], "flags": e["flags"], "attempt": attempt, "attempt_asm": attempt_asm, "spec_res": e["res"]}
+    if len(cases) < 96:
         raise vlib.Machinery("only %d load cases generated" % len(cases))
     envs = [{"GOMAXPROCS": "1"}, {}] if not th else [{"GOMAXPROCS": "1"}, {}, {"GOMAXPROCS": "2"}, {"GOMAXPROCS": "16"}]
     reps = 1 if not th else 25
@@ -189,10 +190,10 @@ def check(ctx, replay=None):
     def one(w):
         c, env = w
         script = {"filters": 1, "steps": [{"op": "load", "t": "free", "unlocked": True, "fid": 1, "pol": "valid", "flags": c["flags"], "nnp": c["nnp"],
-                                          "hook": [{"op": "migrate"}] if c["attempt"] else []}]}
+                                          "hook": ([{"op": "migrate_asm"}] if c.get("attempt_asm") else []) + ([{"op": "migrate"}] if c["attempt"] else [])}]}
         obs, err = lf.run_child(d + "/loadchild", script, c["priv"], env=env)
         return c, env, script, obs, err
-    failed = migrated = 0
+    failed = migrated = migrated_asm = 0
     for c, env, script, obs, err in lf.run_many(one, work):
         if obs is None:
             failed += 1
@@ -201,10 +202,12 @@ def check(ctx, replay=None):
         o = obs[-1]
         ctx.cov["traces_validated_against_impl"] += 1
         ctx.cov["evaluations"] += 1
-        if c["attempt"]:
+        if c["attempt"] or c.get("attempt_asm"):
             ctx.cov["distinct_nontrivial"] += 1
         if o.get("migrated"):
             migrated += 1
+        if o.get("migrated_asm"):
+            migrated_asm += 1
         if (o["result"] == "nil") != (c["spec_res"] == "nil"):
             ctx.drift({"case": c, "real": o["result"], "spec": c["spec_res"]})
         for b in judge(c, o):
@@ -218,7 +221,10 @@ def check(ctx, replay=None):
     sandbox_flag(ctx)
     ctx.cov["cases"] = len(cases)
     ctx.cov["migrations_that_took_effect"] = migrated
+    ctx.cov["migrations_during_assembly_that_took_effect"] = migrated_asm
+    if cases and not migrated_asm:
+        raise vlib.Machinery("no forced migration during assembly took effect: the schedule point of hook H3 is dead")
     ctx.cov["rule"] = ("every load case of LoaderGen with migration: {root, nobody} x NoNewPrivs x flags {0, tsync, log, tsync|log} x {no attempt, forced migration attempt at "
-                       "the schedule point between prctl and seccomp (hook H2)}, each in a fresh child under several GOMAXPROCS; non-trivial = a migration was attempted")
+                       "the schedule point between prctl and seccomp (hook H2)} x {no attempt, forced migration during assembly (hook H3, before the library wires the goroutine)}, each in a fresh child under several GOMAXPROCS; non-trivial = a migration was attempted")
     ctx.assumptions += ["a migration attempt = a helper goroutine wires itself to the loader's OS thread while the loader goroutine is parked at hook H2; "
                         "with the library's own LockOSThread the attempt has no effect (observed: %d took effect)" % migrated]
